@@ -200,7 +200,50 @@ def run(repo: Repo, chk: Check, thorough: bool = False) -> None:
                f'{wname}() can return normally after visit() raised SkipSiblings (e.g. when a child ends the children loop with a SkipSiblings of its own, the '
                're-raise is skipped): the later siblings of the node are entered by the main visitor and by every extension although they were pruned',
                f'{wf.mod.relpath}:{h.lineno}')
-    chk.require('R19.1', 14)
+    # the departure itself: `depart(ob, extensions_only=E)` - E decides whether the main visitor's depart_* runs.  With the boolean flags the handlers set
+    # propagated, E is true exactly for the two exceptions that suppress the node's own departure (SkipNode, SkipDeparture), false otherwise
+    wa_ = repo.func(f'{VIS}.walkabout')
+    dcalls = [c for c in calls_in(wa_) if call_name(c) == 'depart' and dotted(c.func) == 'self.depart']
+    vc_ = [c for c in calls_in(wa_) if call_name(c) == 'visit' and dotted(c.func) == 'self.visit']
+    defaults = {t.id: n.value.value for n in wa_.body() if isinstance(n, ast.Assign) and isinstance(n.value, ast.Constant) and isinstance(n.value.value, bool)
+                for t in n.targets if isinstance(t, ast.Name)}
+    if len(dcalls) != 1 or not vc_:
+        raise AnalysisError('R19.1: Visitor.walkabout: expected exactly one self.depart(...) call')
+    eo = next((k.value for k in dcalls[0].keywords if k.arg == 'extensions_only'), dcalls[0].args[1] if len(dcalls[0].args) > 1 else None)
+
+    def ev_flag(e: Optional[ast.AST], env: Dict[str, bool]) -> Optional[bool]:
+        if e is None:
+            return False
+        if isinstance(e, ast.Constant) and isinstance(e.value, bool):
+            return e.value
+        if isinstance(e, ast.Name):
+            return env.get(e.id)
+        if isinstance(e, ast.UnaryOp) and isinstance(e.op, ast.Not):
+            v = ev_flag(e.operand, env)
+            return None if v is None else not v
+        if isinstance(e, ast.BoolOp):
+            vs = [ev_flag(v, env) for v in e.values]
+            if any(v is None for v in vs):
+                return None
+            return all(vs) if isinstance(e.op, ast.And) else any(vs)
+        return None
+    cww = CFG(wa_)
+    for name in sorted(pruning) + ['(no pruning)']:
+        env = dict(defaults)
+        if name != '(no pruning)':
+            h = _exc_flow(wa_, cww.stmt_of(vc_[0]), name, repo)
+            if h is None:
+                continue
+            env.update({t.id: n.value.value for st in h.body for n in ast.walk(st) if isinstance(n, ast.Assign) and isinstance(n.value, ast.Constant) and
+                        isinstance(n.value.value, bool) for t in n.targets if isinstance(t, ast.Name)})
+        want = name in ('SkipNode', 'SkipDeparture')
+        got = ev_flag(eo, env)
+        chk.ob('R19.1', f'{VIS}.walkabout :: {name} - the main visitor\'s depart_* {"is skipped" if want else "runs"}', got is want,
+               f'extensions_only={norm(eo) if eo is not None else "False"} evaluates to {got}' if got is want else
+               f'extensions_only=`{norm(eo) if eo is not None else "False"}` evaluates to {got} after {name}: ' +
+               ('the node\'s own depart_* method is called although the exception says it must not be' if want else
+                'the main visitor never leaves a node it entered'), repo.loc(wa_.mod, dcalls[0]))
+    chk.require('R19.1', 19)
 
     # ------------------------------------------------------------------ R19.2
     for meth in ('visit', 'depart'):
